@@ -53,6 +53,20 @@ static void case_c13(vrng *r)
 {
     vbuf d; memset(&d, 0, sizeof d);
     vnode *t = text_tree(r, vrn(r, 4) != 0);
+    bool hugedoc = vrn(r, VA.tier ? 120 : 300) == 0;
+    if (hugedoc) {
+        /* a bytes or string value at the 32767/65535 boundaries: 64..140 KB of text, probed at few capacities */
+        static const uint32_t HL[] = { 32766, 32767, 32768, 65535, 65536, 70000 };
+        uint32_t len = HL[vrn(r, 6)];
+        uint8_t *pay = (uint8_t *)va(len + 1);
+        for (uint32_t i = 0; i < len; i++) pay[i] = (uint8_t)(0x21 + (i * 7) % 90);
+        vnode *big = vt_str(vrn(r, 3) ? K_BYTES : K_STR, pay, len);
+        t = vt_new(vrn(r, 2) ? K_OBJ : K_ARR);
+        vnode *before = vt_int(5), *after = vt_int(-6);
+        if (t->kind == K_OBJ) { vt_setname(before, (const uint8_t *)"a", 1); vt_setname(big, (const uint8_t *)"b", 1); vt_setname(after, (const uint8_t *)"c", 1); }
+        vt_add(t, before); vt_add(t, big); vt_add(t, after);
+        vw_count("huge_value_documents", 1);
+    }
     int root = t->kind;
     vt_encode(t, &d);
     int depth = levels(t, root == K_ARR ? 1 : 0) + (int)vrn(r, 2);
@@ -109,6 +123,7 @@ static void case_c13(vrng *r)
         size_t step_from = 700, step_to = need > 700 ? need - 700 : 0;
         for (size_t cap = 0; cap <= need + 3; cap++) {
             if (need > 4096 && cap > step_from && cap < step_to && cap % 61 != 0) continue;
+            if (need > 60000 && !(cap < 40 || cap + 6 >= need || cap % 9973 == 17)) continue;     /* huge texts: both ends and a sparse stride */
             bool canary = cap == 0 || ((cap + VA.seed) % 5 == 0);
             char *dst = canary ? (char *)malloc(cap + 64) : (char *)vg_exact(cap);
             if (canary) memset(dst + cap, 0xEE, 64);
